@@ -60,7 +60,17 @@ impl<'a, N: Normalizer> Html5Serializer<'a, N> {
         cdata_section_names: &'a [NameId],
         normalizer: N,
     ) -> Self {
-        let extra_declarations = xot.namespaces_in_scope(node).collect();
+        // a default namespace in scope that is not the namespace of the node
+        // we start with is never written on it (see `Prefix`), so it is not
+        // in force for what we serialize either
+        let node_namespace = xot
+            .element(node)
+            .map(|element| xot.namespace_for_name(element.name()));
+        let empty_prefix = xot.empty_prefix();
+        let extra_declarations = xot
+            .namespaces_in_scope(node)
+            .filter(|(prefix, namespace)| *prefix != empty_prefix || Some(*namespace) == node_namespace)
+            .collect();
         let fullname_serializer = FullnameSerializer::new(xot, extra_declarations);
         Self {
             xot,
@@ -127,6 +137,28 @@ impl<'a, N: Normalizer> Html5Serializer<'a, N> {
         Ok(())
     }
 
+    // The declarations of an element that are in force for name resolution: a
+    // default namespace declaration for another namespace than the element's
+    // own is never written (see `Prefix` below), so it must not be taken to
+    // be in force for the element's descendants either.
+    fn effective_declarations(
+        &self,
+        node: Node,
+        name_id: crate::id::NameId,
+    ) -> crate::output::fullname::NamespaceDeclarations {
+        let element_namespace = self.xot.namespace_for_name(name_id);
+        let empty_prefix = self.xot.empty_prefix();
+        self.xot
+            .namespace_declarations(node)
+            .into_iter()
+            .filter(|(prefix, namespace)| *prefix != empty_prefix || *namespace == element_namespace)
+            .collect()
+    }
+
+    fn has_effective_declarations(&self, node: Node, name_id: crate::id::NameId) -> bool {
+        !self.effective_declarations(node, name_id).is_empty()
+    }
+
     pub(crate) fn render_output(
         &mut self,
         node: Node,
@@ -136,7 +168,7 @@ impl<'a, N: Normalizer> Html5Serializer<'a, N> {
         let r = match output {
             StartTagOpen(element) => {
                 self.fullname_serializer
-                    .push(self.xot.namespace_declarations(node));
+                    .push(self.effective_declarations(node, element.name_id));
                 let namespace_id = self.xot.namespace_for_name(element.name_id);
                 if self
                     .html5_elements
@@ -146,7 +178,7 @@ impl<'a, N: Normalizer> Html5Serializer<'a, N> {
                     // add the empty prefix for the namespace; an element without
                     // declarations has no entry of its own on the stack: give it
                     // one, so that the binding ends with the element
-                    if self.xot.has_namespace_declarations(node) {
+                    if self.has_effective_declarations(node, element.name_id) {
                         self.fullname_serializer.add_empty_prefix(namespace_id);
                     } else {
                         self.fullname_serializer
@@ -198,8 +230,9 @@ impl<'a, N: Normalizer> Html5Serializer<'a, N> {
                 if added_default {
                     self.added_default.pop();
                 }
-                self.fullname_serializer
-                    .pop(added_default || self.xot.has_namespace_declarations(node));
+                self.fullname_serializer.pop(
+                    added_default || self.has_effective_declarations(node, element.name_id),
+                );
                 r
             }
             Prefix(prefix_id, namespace_id) => {
